@@ -282,15 +282,20 @@ CHECKS['C13'] = dict(
     ref='DESIGN.md section 5, C13')
 
 CHECKS['C09'] = dict(
-    category='exploration',
-    text='Interim level: for documents from the tree generator (restricted to the property domain) and all 652 spec examples, '
-         'under normalize_whitespace False/True: the text rendered back by MarkdownRenderer must give the same HtmlRenderer '
-         'output and the same link definitions, and rendering the rendered text again must reproduce it byte for byte. The '
-         'spec examples that fail today are listed individually as known findings. Lean theorems over the Markdown renderer '
-         'and parser models are the planned upgrade.',
-    note='Trusted: HtmlRenderer output + Document.footnotes as meaning. Interim level, see DESIGN.md C09.',
-    technique='round-trip exploration on generated documents and the spec corpus (Lean theorems pending the Markdown renderer/parser models)',
-    ref='DESIGN.md section 5, C09')
+    text='Lean theorems (Props/C09.lean) over the parser model and the model of markdown_renderer.py, for the fragment: documents of '
+         'inert prose paragraphs, ATX headings and thematic breaks in the renderer\'s normal form, separated by single empty lines, '
+         'inside any number of nested block quotes, no line limit, either value of normalize_whitespace: the document is reproduced '
+         'byte for byte (C09_blocks_exact_partial, C09_prose_exact_partial), rendering again reproduces it, and the rendered text '
+         'parses to the same document with the same definitions and the same HTML under every configuration '
+         '(C09_blocks_roundtrip_markdown), instantiated for the token lists regenerated from /repo. The Markdown renderer model is '
+         'tied to the code byte for byte on all 652 spec examples x 4 option sets, generated documents and perturbed trees; the '
+         'theorem\'s hypotheses are evaluated by the second driver and its conclusion checked on the real renderer. Everything '
+         'outside the fragment (other block and inline constructs, documents not in normal form) is decided by round-trip '
+         'exploration of the three clauses on generated documents and the spec corpus; the spec examples that fail today are '
+         'listed individually as known findings.',
+    note='Partial: proof for the prose/heading/thematic-break/quote fragment; other constructs by exploration. Trusted: HtmlRenderer output + Document.footnotes as meaning.',
+    technique='Lean 4 proof (renderer computation on the parsed fragment composed from the C14 prose, C04 quote-wrap and C05 locality theorems) + byte-exact correspondence of the Markdown renderer model + hypothesis evaluation with conclusion checked on the implementation + round-trip exploration',
+    ref='DESIGN.md section 12.2, C09')
 
 NOT_YET = {}
 
